@@ -296,11 +296,11 @@ def bq_sx(b):
     if b[0] == 'pq':
         # == / != between the member's value and what a `$` path reaches: ('pq', inner, ne, root steps)
         return '(pq (%s) %d (%s))' % (inner, 1 if b[2] else 0, ' '.join('(%s)' % kstep_sx(x) for x in b[3]))
-    if b[0] == 'l':
+    if b[0] in ('l', 'll'):
         # == / != against a string ('s', quote, body cps), boolean ('b', 0/1, spelling) or null ('n', spelling) literal
         lv = b[3]
         lit = ('s %d %s' % (lv[1], ' '.join(str(x) for x in lv[2]))) if lv[0] == 's' else ('b %d %d' % (lv[1], lv[2])) if lv[0] == 'b' else 'n %d' % lv[1]
-        return '(l (%s) %d (%s))' % (inner, 1 if b[2] else 0, lit)
+        return '(%s (%s) %d (%s))' % (b[0], inner, 1 if b[2] else 0, lit)
     return '(%s %s)' % (b[0], inner)
 
 
